@@ -26,7 +26,7 @@ open Matrix
 /-- The state description reports the size of F and Q. -/
 theorem wna_state_dim (dim : Dim) :
     dim.stateDim = dim.n * 2 ∧ (wnaStateDescr dim).lin = dim.n * 2 ∧
-    (additiveInputDescr (wnaStateDescr dim) (dim.n * 2)) = ⟨dim.n * 2, 0, dim.n * 2⟩ := by
+    (additiveInputDescr (wnaStateDescr dim) (dim.n * 2)) = { lin := dim.n * 2, circ := 0, noise := dim.n * 2 } := by
   cases dim <;> simp [Dim.stateDim, Dim.n, wnaStateDescr, additiveInputDescr]
 
 /-- `F = blockdiag([1 T; 0 1])`: the tables of the `switch` are the block-diagonal matrix
@@ -375,27 +375,110 @@ theorem sensor_freeze {n m : Nat} (H : Mat ℝ m n) (SR : Mat ℝ m m) (s : Sens
   funext i
   simp [Mat.col, Rng.draw, fillCM]
 
-/-- Descriptions: the input description is the state description plus one noise component per row
-    of R; the measurement description splits the measured components into those that select a
-    linear and those that select a circular state component; together they are all of them. -/
+/-- Descriptions: the input description is the state description (circular type included) plus
+    one noise component per row of R; the measurement description splits the measured components
+    into those that select a linear and those that select a circular state entry; together they are
+    all of them. -/
 theorem sensor_descriptions (state : Descr) (idx : List Nat) (rRows : Nat) :
-    sensorInputDescr state rRows = ⟨state.lin, state.circ, state.noise + rRows⟩ ∧
+    sensorInputDescr state rRows = { state with noise := state.noise + rRows } ∧
+    (sensorInputDescr state rRows).totalSize = state.totalSize + rRows ∧
+    (sensorInputDescr state rRows).dofSize = state.dofSize + rRows ∧
     (sensorMeasDescr state idx).lin + (sensorMeasDescr state idx).circ = idx.length ∧
-    ((∀ c ∈ idx, c < state.lin) → sensorMeasDescr state idx = ⟨idx.length, 0, 0⟩) := by
-  refine ⟨rfl, ?_, ?_⟩
+    ((∀ c ∈ idx, c < state.lin) → sensorMeasDescr state idx = { lin := idx.length, circ := 0, noise := 0 }) := by
+  refine ⟨rfl, ?_, ?_, ?_, ?_⟩
+  · cases hq : state.quat <;>
+      simp [sensorInputDescr, Descr.totalSize, Descr.linearSize, Descr.circularSize, Descr.noiseSize, hq] <;> omega
+  · cases hq : state.quat <;>
+      simp [sensorInputDescr, Descr.dofSize, Descr.totalSize, Descr.linearSize, Descr.circularSize, Descr.noiseSize, hq] <;> omega
   · simp only [sensorMeasDescr]
     induction idx with
     | nil => rfl
     | cons c idx ih =>
       simp only [List.filter_cons, List.length_cons]
-      by_cases hc : c < state.lin <;> simp [hc] <;> omega
+      by_cases hc : c < state.linearSize <;> simp [hc] <;> omega
   · intro hall
     simp only [sensorMeasDescr]
-    have h1 : idx.filter (fun c => decide (c < state.lin)) = idx := by
-      rw [List.filter_eq_self]; intro c hc; simpa using hall c hc
-    have h2 : idx.filter (fun c => !decide (c < state.lin)) = [] := by
-      rw [List.filter_eq_nil_iff]; intro c hc; simpa using hall c hc
+    have h1 : idx.filter (fun c => decide (c < state.linearSize)) = idx := by
+      rw [List.filter_eq_self]; intro c hc; exact decide_eq_true (hall c hc)
+    have h2 : idx.filter (fun c => !decide (c < state.linearSize)) = [] := by
+      rw [List.filter_eq_nil_iff]; intro c hc; simp only [Bool.not_eq_true', Bool.not_eq_false', decide_eq_true (show c < state.linearSize from hall c hc)]; simp
     rw [h1, h2]; rfl
+
+/-- The constructor computes the measurement description from `H` (arg-max column of every row,
+    compared with the linear size of the input description).  For the 0/1 matrix of a valid index
+    list the arg-max of row `i` is `idx[i]`, so the result is the index-list form above; it is an
+    Euler-type description whose total size is the number of measured components — also when the
+    state carries quaternions (`circularSize = 4·circ`), where every selected quaternion *entry*
+    counts as one circular component (the `FIXME` of the code). -/
+theorem sensor_meas_descr_from_H {n : Nat} (state : Descr) (idx : List Nat) (hall : ∀ c ∈ idx, c < n) :
+    (∀ (i : Fin idx.length), rowArgmaxAbs (linearModelH (α := ℝ) n idx) i
+        = some ⟨idx[i.val], hall _ (List.getElem_mem i.isLt)⟩) ∧
+    sensorMeasDescrH state (linearModelH (α := ℝ) n idx) = sensorMeasDescr state idx ∧
+    (sensorMeasDescrH state (linearModelH (α := ℝ) n idx)).quat = false ∧
+    (sensorMeasDescrH state (linearModelH (α := ℝ) n idx)).totalSize = idx.length := by
+  have heq := sensorMeasDescrH_eq state idx hall
+  refine ⟨fun i => rowArgmaxAbs_linearModelH idx i _, heq, by rw [heq]; rfl, ?_⟩
+  rw [heq]
+  have := (sensor_descriptions state idx 0).2.2.2.1
+  simp only [Descr.totalSize, Descr.linearSize, Descr.circularSize, Descr.noiseSize]
+  have hq : (sensorMeasDescr state idx).quat = false := rfl
+  have hn : (sensorMeasDescr state idx).noise = 0 := rfl
+  rw [hq, hn]
+  simpa using this
+
+/-- Sizes of a description: a quaternion component occupies four entries and has three degrees of
+    freedom; an Euler description has as many degrees of freedom as entries. -/
+theorem descr_sizes (d : Descr) :
+    (d.quat = true → d.totalSize = d.lin + d.circ * 4 + d.noise ∧ d.dofSize = d.lin + d.circ * 3 + d.noise) ∧
+    (d.quat = false → d.totalSize = d.lin + d.circ + d.noise ∧ d.dofSize = d.totalSize) := by
+  constructor <;> intro h <;>
+    simp [Descr.totalSize, Descr.dofSize, Descr.linearSize, Descr.circularSize, Descr.noiseSize, h]
+
+/-- History lift: `k` successive `freeze` calls on a fresh sensor over a trajectory of `L` states
+    serve `min k L` states, consume `m · min k L` draws, and leave the measurement of the last state
+    served, `H x_j + S_R z_j` with `j = min k L − 1` and `z_j` the j-th window of the stream. -/
+theorem sensor_freeze_history {n m : Nat} (H : Mat ℝ m n) (SR : Mat ℝ m m) (s : Sensor ℝ n m)
+    (hfresh : s.sim.cursor = 0) (k : Nat) :
+    (sensorFreezeN H SR s k).sim.cursor = min k s.sim.target.length ∧
+    (sensorFreezeN H SR s k).rng.pos = s.rng.pos + m * min k s.sim.target.length ∧
+    (∀ j, j + 1 = min k s.sim.target.length →
+      ∃ (h : j < s.sim.target.length) (y : Vec ℝ m), (sensorFreezeN H SR s k).meas = some y ∧
+        toV y = toM H *ᵥ toV (s.sim.target[j]'h)
+                + toM SR *ᵥ (fun i : Fin m => s.rng.stream (s.rng.pos + m * j + i.val))) ∧
+    (k = 0 → (sensorFreezeN H SR s k).meas = s.meas) := by
+  obtain ⟨_, h2, _, h4, h5⟩ := sensorFreezeN_spec H SR s s.sim.target.length 0 rfl hfresh (Nat.zero_le _) k
+  simp only [Nat.zero_add, Nat.sub_zero] at h2 h4 h5
+  refine ⟨h2, h4, fun j hj => ?_, fun hk => by subst hk; rfl⟩
+  exact h5 j (Nat.zero_le _) hj
+
+/-- Plumbing: the shipped models refuse every property string (`Agent::setProperty` default,
+    `WhiteNoiseAcceleration`, `LTIStateModel`), `setSamplingTime` reports success and leaves the
+    configuration alone, and a moved `WhiteNoiseAcceleration` is the source object unchanged
+    (configuration and generator state). -/
+theorem plumbing_noop (p : String) (cfg : Dim × ℝ × ℝ) (t : ℝ) (a b : WnaObj ℝ) :
+    defaultSetProperty p = false ∧ wnaSetSamplingTime cfg t = (true, cfg) ∧
+    a.moveFrom = a ∧ WnaObj.moveAssign b a = a := ⟨rfl, rfl, rfl, rfl⟩
+
+/-! ## Hypotheses that cannot be dropped -/
+
+/-- `T > 0` is needed: for `T ≤ 0` (and `q > 0`) Q is not positive definite — its entry (1,1) is
+    `q T ≤ 0`. -/
+theorem wna_Q_posDef_needs_T (dim : Dim) {T q : ℝ} (hT : T ≤ 0) (hq : 0 < q) :
+    ¬ (toM (wnaQ dim T q)).PosDef := by
+  intro hpd
+  have h1 : 1 < dim.n * 2 := by cases dim <;> simp [Dim.n]
+  have hpos := hpd.diag_pos (i := (⟨1, h1⟩ : Fin (dim.n * 2)))
+  rw [toM_apply, wnaQ_entry] at hpos
+  simp at hpos
+  nlinarith
+
+/-- Grid sizes ≥ 2 are needed: with a single line per axis the code divides by `nx − 1 = 0`; over ℝ
+    (`x / 0 = 0`) the only line sits at `inf` and never reaches `sup`; in floating point the value is
+    `0 · ∞ = NaN`. -/
+theorem grid_needs_two_lines (inf sup : ℝ) (h : inf ≠ sup) :
+    gridCoord inf sup 1 (1 - 1) = inf ∧ gridCoord inf sup 1 (1 - 1) ≠ sup := by
+  have : gridCoord inf sup 1 (1 - 1) = inf := by simp [gridCoord]
+  exact ⟨this, by rw [this]; exact h⟩
 
 /-! ## Grid initialiser -/
 
